@@ -189,6 +189,13 @@ func Build(id, tier string, seed int64) (*BehavCheck, error) {
 		c.Sim.Num = tierNum(tier, 12, 250)
 		c.Sim.Classes = []string{"set", "set", "set", "set", "set", "set", "setnew", "setnew", "setnew", "setnew", "setnew", "rm", "rmhit", "rmhit", "save", "save", "reopen", "delto", "load"}
 		c.Nontrivial = func(b *model.Behaviour) bool { return hasOps(b, "set", "save", "rm") }
+		c.PostRun = func(ev *Evidence) ([]string, []string, error) {
+			return runScenarios(id, seed, ev, map[string]func() string{
+				"tall-tree-costs/ascending":   allScenarios["tall-tree-costs/ascending"],
+				"tall-tree-costs/descending":  allScenarios["tall-tree-costs/descending"],
+				"tall-tree-costs/alternating": allScenarios["tall-tree-costs/alternating"],
+			}), nil, nil
+		}
 		c.Rule = "Iavl.tla behaviours over 12 keys with insertion-biased classes (trees up to height 5, removals that empty subtrees, interleaved commits); after every step: GetWithIndex/GetByIndex over all keys, gap keys and ranks incl. out-of-range (C01 sweep), Height() and Size() equal to the spec tree's, the numeric AVL bound, and - on a handle with cache size 0 and the index off, through a counting store - the number of node reads of Get/Has/GetWithIndex/GetByIndex (<= 2h+2) and GetProof (<= 10h+10) with h from the spec tree; TLC checks WellFormed (AVL balance, size/height fields, routing keys) and the Fibonacci form of the height bound on every tree of the bounded instance"
 	case "C15":
 		c.Classes = exec.Classes{Changes: true}
